@@ -209,35 +209,62 @@ theorem reloaded_items_canonical (u : UC) (c : ClassM) :
 
 /-- RELOAD (all but links), `serialize_database`: for every well-formed, closed metamodel (class names distinct after
     upper-casing, attribute names of a class distinct after upper-casing — `define_class` accepts no other class —,
-    no attribute name or association key of the form `__x__` — open finding of C12, outside the model —, core attribute types, identifier names distinct per class, association ends naming classes of the model
+    no attribute name or association key of the form `__x__` — `define_class` / `define_association` raise for them, so no
+    such metamodel can be built —, core attribute types, identifier names distinct per class, association ends naming classes of the model
     with key lists of equal length and existing target keys, rows as long as the attribute list) the written text is
     accepted, builds, and the built metamodel — as the writers see it — is `m.reloaded`: the same classes (in sorted
     order) with the same attributes (type names upper-cased), the same identifiers, the same rows in order with equal
     values (an unset value is the null value of its type; a REAL value is its six-decimal numeral), and the same
     associations (rel id, kinds, keys, multiplicity, conditionality, phrases; in the order written).
-    `RefsResolve` (every row with a non-null value in a source key cell is linked across that association) is NOT used by
-    the proof — the equation is about the model's `toMM`, which keeps the INSERT value of referential cells — it is the
-    condition under which that `toMM` is what the implementation's `getattr` returns: the code deletes referential cells
-    from `__dict__` and reads them through the link (`B(7, A_Id=5)` without an `A(Id=5)` reads 0 there and 5 in the model).
-    Everything the writers produce from an API-built model satisfies it. -/
-theorem reload_same_partial (u : UC) (m : MM) (hw : m.WF u) (hm : m.Closed u) (_hres : RefsResolve u m) (text : Text)
+    GETATTR VALUES.  `bs.toMM` keeps the value an INSERT carried for a referential cell, while the implementation deletes
+    referential attributes from `__dict__` at the end of the load and reads them through the link.  The last conjunct says
+    that this makes no difference: the built metamodel is a FIXED POINT of reading through links (`MM.ReadsFixed`:
+    `getattr` returns every stored cell, up to unset ≡ null value) -- provided the canonical form of `m` is one
+    (hypothesis `hread`, USED).  `reads_fixed_of_links` says when that is: whenever a row has a partner the partner's
+    identifying value is the stored referential value, and a referential cell of a row without partner is empty or null;
+    everything the writers produce from an API-built model is like that, a hand-written `B(7, A_Id=5)` without an
+    `A(Id=5)` is not (the implementation reads 0 there; example below). -/
+theorem reload_same_partial (u : UC) (m : MM) (hw : m.WF u) (hm : m.Closed u)
+    (hread : (m.reloaded u m.assocsByIdKind).ReadsFixed u) (text : Text)
     (hp : printItems u (m.serializeDatabase u) = some text) :
-    ∃ stmts bs, classify u text = .accepted stmts ∧ build u stmts = .ok bs ∧ bs.toMM u = m.reloaded u m.assocsByIdKind :=
-  reload_serializeDatabase u m hw hm text hp
+    ∃ stmts bs, classify u text = .accepted stmts ∧ build u stmts = .ok bs ∧ bs.toMM u = m.reloaded u m.assocsByIdKind ∧
+      (bs.toMM u).ReadsFixed u := by
+  obtain ⟨stmts, bs, hc, hb, he⟩ := reload_serializeDatabase u m hw hm text hp
+  exact ⟨stmts, bs, hc, hb, he, by rw [he]; exact hread⟩
 
 /-- … `persist_database` (identifiers interleaved after each class, associations sorted by rel id only) -/
-theorem reload_same_partial_persist (u : UC) (m : MM) (hw : m.WF u) (hm : m.Closed u) (_hres : RefsResolve u m) (text : Text)
+theorem reload_same_partial_persist (u : UC) (m : MM) (hw : m.WF u) (hm : m.Closed u)
+    (hread : (m.reloaded u m.assocsById).ReadsFixed u) (text : Text)
     (hp : printItems u (m.persistDatabase u) = some text) :
-    ∃ stmts bs, classify u text = .accepted stmts ∧ build u stmts = .ok bs ∧ bs.toMM u = m.reloaded u m.assocsById :=
-  reload_persistDatabase u m hw hm text hp
+    ∃ stmts bs, classify u text = .accepted stmts ∧ build u stmts = .ok bs ∧ bs.toMM u = m.reloaded u m.assocsById ∧
+      (bs.toMM u).ReadsFixed u := by
+  obtain ⟨stmts, bs, hc, hb, he⟩ := reload_persistDatabase u m hw hm text hp
+  exact ⟨stmts, bs, hc, hb, he, by rw [he]; exact hread⟩
 
 /-- … the three parts of `serialize_schema / serialize_instances / serialize_unique_identifiers` and of the
     `persist_*` writers in ANY of the six orders: the statements build to the same reloaded metamodel -/
-theorem reload_same_partial_parts (u : UC) (m : MM) (hm : m.Closed u) (_hres : RefsResolve u m) (items : List Item) (stmts : List Stmt)
-    (hs : itemsStmts u items = some stmts) :
-    (items ∈ serializeOrders u m → ∃ bs, build u stmts = .ok bs ∧ bs.toMM u = m.reloaded u m.assocsByIdKind) ∧
-    (items ∈ persistOrders u m → ∃ bs, build u stmts = .ok bs ∧ bs.toMM u = m.reloaded u m.assocsById) :=
-  reload_parts u m hm items stmts hs
+theorem reload_same_partial_parts (u : UC) (m : MM) (hm : m.Closed u)
+    (hread1 : (m.reloaded u m.assocsByIdKind).ReadsFixed u) (hread2 : (m.reloaded u m.assocsById).ReadsFixed u)
+    (items : List Item) (stmts : List Stmt) (hs : itemsStmts u items = some stmts) :
+    (items ∈ serializeOrders u m →
+      ∃ bs, build u stmts = .ok bs ∧ bs.toMM u = m.reloaded u m.assocsByIdKind ∧ (bs.toMM u).ReadsFixed u) ∧
+    (items ∈ persistOrders u m →
+      ∃ bs, build u stmts = .ok bs ∧ bs.toMM u = m.reloaded u m.assocsById ∧ (bs.toMM u).ReadsFixed u) := by
+  constructor
+  · intro h
+    obtain ⟨bs, hb, he⟩ := (reload_parts u m hm items stmts hs).1 h
+    exact ⟨bs, hb, he, by rw [he]; exact hread1⟩
+  · intro h
+    obtain ⟨bs, hb, he⟩ := (reload_parts u m hm items stmts hs).2 h
+    exact ⟨bs, hb, he, by rw [he]; exact hread2⟩
+
+/-- WHEN a metamodel is a fixed point of reading through links (the hypothesis `hread` of the reload theorems), in terms of
+    its links: (partner) whenever a row has a partner across an association, the partner's identifying value is the row's
+    stored referential value; (alone) a referential cell of a row without any partner holds nothing or the null value of
+    its type.  Without associations nothing is read through links. -/
+theorem reads_fixed_of_links (u : UC) (m : MM) :
+    (ReadsResolved u m → m.ReadsFixed u) ∧ (m.assocs = [] → m.ReadsFixed u) :=
+  ⟨readsFixed_of_resolved u m, readsFixed_no_assocs u m⟩
 
 /-- the reloaded metamodel is a fixed point of reloading as far as classes, identifiers and associations go:
     canonicalising a class twice is canonicalising it once (type names ASCII) -/
@@ -285,7 +312,7 @@ theorem unset_nullable_safe (t : Option Gen.Persist.Ty) (h : t = some .UNIQUE_ID
     accepted, builds, the built metamodel is `m.reloaded` (classes, attribute types, identifiers, rows, associations) and
     its keys denote the SAME links `L` — under the spec join `linksOfAssoc`; that the loader's `populate_connections`
     computes that join is C03's theorem about C03's model and the correspondence run here, not a Lean bridge. -/
-theorem reload_same_spec (u : UC) (m : MM) (hw : m.WF u) (hm : m.Closed u) (hsafe : UnsetSafe u m) (_hres : RefsResolve u m)
+theorem reload_same_spec (u : UC) (m : MM) (hw : m.WF u) (hm : m.Closed u) (hsafe : UnsetSafe u m)
     (L : AssocM → List (Nat × Nat)) (hL : KeysResolve u m L) (text : Text)
     (hp : printItems u (m.serializeDatabase u) = some text) :
     ∃ stmts bs, classify u text = .accepted stmts ∧ build u stmts = .ok bs ∧
@@ -299,7 +326,7 @@ theorem reload_same_spec (u : UC) (m : MM) (hw : m.WF u) (hm : m.Closed u) (hsaf
   exact hL a ham p
 
 /-- … and `persist_database` -/
-theorem reload_same_persist_spec (u : UC) (m : MM) (hw : m.WF u) (hm : m.Closed u) (hsafe : UnsetSafe u m) (_hres : RefsResolve u m)
+theorem reload_same_persist_spec (u : UC) (m : MM) (hw : m.WF u) (hm : m.Closed u) (hsafe : UnsetSafe u m)
     (L : AssocM → List (Nat × Nat)) (hL : KeysResolve u m L) (text : Text)
     (hp : printItems u (m.persistDatabase u) = some text) :
     ∃ stmts bs, classify u text = .accepted stmts ∧ build u stmts = .ok bs ∧
@@ -340,7 +367,7 @@ theorem loader_linked_iff_spec (u : UC) (m : MM) (h : LoadDom u m) (A : List Ass
     metamodel is `m.reloaded`, and the loader model builds from ITS statements exactly the links `L` the original holds
     (`hL`: `L` is what the loader model builds from the statements of `m`) -- under `UnsetSafe`, the guard against the open
     finding `unset-referential-relinks` -/
-theorem reload_same (u : UC) (m : MM) (hw : m.WF u) (hd : LoadDom u m) (hsafe : UnsetSafe u m) (_hres : RefsResolve u m)
+theorem reload_same (u : UC) (m : MM) (hw : m.WF u) (hd : LoadDom u m) (hsafe : UnsetSafe u m)
     (L : AssocM → List (Nat × Nat)) (hL : ∀ a ∈ m.assocs, ∀ i j, (i, j) ∈ L a ↔ LoaderLinked u m a i j) (text : Text)
     (hp : printItems u (m.serializeDatabase u) = some text) :
     ∃ stmts bs, classify u text = .accepted stmts ∧ build u stmts = .ok bs ∧
@@ -353,7 +380,7 @@ theorem reload_same (u : UC) (m : MM) (hw : m.WF u) (hd : LoadDom u m) (hsafe : 
   exact (loader_links_reloaded u m hd hsafe _ (fun x hx => (mem_sortBy _ _ _).mp hx) a ((mem_sortBy _ _ _).mpr ha) i j).symm
 
 /-- … and `persist_database` -/
-theorem reload_same_persist (u : UC) (m : MM) (hw : m.WF u) (hd : LoadDom u m) (hsafe : UnsetSafe u m) (_hres : RefsResolve u m)
+theorem reload_same_persist (u : UC) (m : MM) (hw : m.WF u) (hd : LoadDom u m) (hsafe : UnsetSafe u m)
     (L : AssocM → List (Nat × Nat)) (hL : ∀ a ∈ m.assocs, ∀ i j, (i, j) ∈ L a ↔ LoaderLinked u m a i j) (text : Text)
     (hp : printItems u (m.persistDatabase u) = some text) :
     ∃ stmts bs, classify u text = .accepted stmts ∧ build u stmts = .ok bs ∧
@@ -372,38 +399,47 @@ theorem reload_same_persist (u : UC) (m : MM) (hw : m.WF u) (hd : LoadDom u m) (
     text₃ written from that is text₂: `serialize (reload m) = serialize (reload (reload m))`.  Covers the whole value
     canonicalisation (unset → null value, six-decimal reals, booleans as 0 / 1, string and phrase escaping, type names
     upper-cased, classes sorted). -/
-theorem text_fixed_point (u : UC) (m : MM) (hw : m.WF u) (hm : m.Closed u) (text1 : Text)
+theorem text_fixed_point (u : UC) (m : MM) (hw : m.WF u) (hm : m.Closed u)
+    (hread : (m.reloaded u m.assocsByIdKind).ReadsFixed u) (text1 : Text)
     (hp : printItems u (m.serializeDatabase u) = some text1) :
     ∃ text2, printItems u ((m.reloaded u m.assocsByIdKind).serializeDatabase u) = some text2 ∧
       ∃ stmts2 bs2, classify u text2 = .accepted stmts2 ∧ build u stmts2 = .ok bs2 ∧
-        bs2.toMM u = m.reloaded u m.assocsByIdKind ∧ printItems u ((bs2.toMM u).serializeDatabase u) = some text2 :=
-  text_fixed_point_serializeDatabase u m hw hm text1 hp
+        bs2.toMM u = m.reloaded u m.assocsByIdKind ∧ printItems u ((bs2.toMM u).serializeDatabase u) = some text2 ∧
+        (bs2.toMM u).ReadsFixed u := by
+  obtain ⟨text2, h1, stmts2, bs2, h2, h3, h4, h5⟩ := text_fixed_point_serializeDatabase u m hw hm text1 hp
+  exact ⟨text2, h1, stmts2, bs2, h2, h3, h4, h5, by rw [h4]; exact hread⟩
 
 /-- … `persist_database` -/
-theorem text_fixed_point_persist (u : UC) (m : MM) (hw : m.WF u) (hm : m.Closed u) (text1 : Text)
+theorem text_fixed_point_persist (u : UC) (m : MM) (hw : m.WF u) (hm : m.Closed u)
+    (hread : (m.reloaded u m.assocsById).ReadsFixed u) (text1 : Text)
     (hp : printItems u (m.persistDatabase u) = some text1) :
     ∃ text2, printItems u ((m.reloaded u m.assocsById).persistDatabase u) = some text2 ∧
       ∃ stmts2 bs2, classify u text2 = .accepted stmts2 ∧ build u stmts2 = .ok bs2 ∧
-        bs2.toMM u = m.reloaded u m.assocsById ∧ printItems u ((bs2.toMM u).persistDatabase u) = some text2 :=
-  text_fixed_point_persistDatabase u m hw hm text1 hp
+        bs2.toMM u = m.reloaded u m.assocsById ∧ printItems u ((bs2.toMM u).persistDatabase u) = some text2 ∧
+        (bs2.toMM u).ReadsFixed u := by
+  obtain ⟨text2, h1, stmts2, bs2, h2, h3, h4, h5⟩ := text_fixed_point_persistDatabase u m hw hm text1 hp
+  exact ⟨text2, h1, stmts2, bs2, h2, h3, h4, h5, by rw [h4]; exact hread⟩
 
 /-- … the three separately written parts of the RELOADED metamodel, in any of the six orders, build to the reloaded
     metamodel again (so every part is written identically once more) -/
-theorem text_fixed_point_parts (u : UC) (m : MM) (hm : m.Closed u) (items : List Item) (stmts : List Stmt)
-    (hs : itemsStmts u items = some stmts) :
+theorem text_fixed_point_parts (u : UC) (m : MM) (hm : m.Closed u)
+    (hread1 : (m.reloaded u m.assocsByIdKind).ReadsFixed u) (hread2 : (m.reloaded u m.assocsById).ReadsFixed u)
+    (items : List Item) (stmts : List Stmt) (hs : itemsStmts u items = some stmts) :
     (items ∈ serializeOrders u (m.reloaded u m.assocsByIdKind) →
-      ∃ bs, build u stmts = .ok bs ∧ bs.toMM u = m.reloaded u m.assocsByIdKind) ∧
+      ∃ bs, build u stmts = .ok bs ∧ bs.toMM u = m.reloaded u m.assocsByIdKind ∧ (bs.toMM u).ReadsFixed u) ∧
     (items ∈ persistOrders u (m.reloaded u m.assocsById) →
-      ∃ bs, build u stmts = .ok bs ∧ bs.toMM u = m.reloaded u m.assocsById) := by
+      ∃ bs, build u stmts = .ok bs ∧ bs.toMM u = m.reloaded u m.assocsById ∧ (bs.toMM u).ReadsFixed u) := by
   have hA1 : ∀ a ∈ m.assocsByIdKind, a ∈ m.assocs := fun a ha => (mem_sortBy _ _ _).mp ha
   have hA2 : ∀ a ∈ m.assocsById, a ∈ m.assocs := fun a ha => (mem_sortBy _ _ _).mp ha
   constructor
   · intro h
     obtain ⟨bs, hb, he⟩ := (reload_parts u _ (closed_reloaded u m hm _ hA1) items stmts hs).1 h
-    exact ⟨bs, hb, by rw [he, reloaded_reloaded_byIdKind u m hm]⟩
+    have e := reloaded_reloaded_byIdKind u m hm
+    exact ⟨bs, hb, by rw [he, e], by rw [he, e]; exact hread1⟩
   · intro h
     obtain ⟨bs, hb, he⟩ := (reload_parts u _ (closed_reloaded u m hm _ hA2) items stmts hs).2 h
-    exact ⟨bs, hb, by rw [he, reloaded_reloaded_byId u m hm]⟩
+    have e := reloaded_reloaded_byId u m hm
+    exact ⟨bs, hb, by rw [he, e], by rw [he, e]; exact hread2⟩
 
 /-- WHEN THE FIRST TEXT IS ALREADY THE FIXED POINT: `serialize (reload m) = serialize m` holds when the classes of m are
     already in sorted order and its attribute type names are already upper-case.  It can fail only through the order of
@@ -429,13 +465,16 @@ theorem insert_only_types (u : UC) (t : Gen.Persist.Ty) (x : Val) (txt : Text) (
     `m.inferred` — per kind that has rows, in the order of first appearance, a class with attributes `_0 … _n` of the
     guessed types and the rows in their order with their values (unset ≡ null, a boolean as 0 / 1); identifiers,
     associations and classes without rows are not there.  Writing the instances of that metamodel and loading them again
-    gives the same metamodel: a fixed point after one round. -/
+    gives the same metamodel: a fixed point after one round.  There are no associations, so nothing is read through links
+    (`ReadsFixed` holds outright). -/
 theorem insert_only_reload (u : UC) (m : MM) (hw : m.WF u) (hm : m.Closed u) (text1 : Text)
     (hp : printItems u m.serializeInstances = some text1) :
     (∃ stmts bs, classify u text1 = .accepted stmts ∧ build u stmts = .ok bs ∧ bs.toMM u = m.inferred u) ∧
-    ∃ text2, printItems u (m.inferred u).serializeInstances = some text2 ∧
-      ∃ stmts2 bs2, classify u text2 = .accepted stmts2 ∧ build u stmts2 = .ok bs2 ∧ bs2.toMM u = m.inferred u :=
-  instances_only_text u m hw hm text1 hp
+    (∃ text2, printItems u (m.inferred u).serializeInstances = some text2 ∧
+      ∃ stmts2 bs2, classify u text2 = .accepted stmts2 ∧ build u stmts2 = .ok bs2 ∧ bs2.toMM u = m.inferred u) ∧
+    (m.inferred u).ReadsFixed u :=
+  ⟨(instances_only_text u m hw hm text1 hp).1, (instances_only_text u m hw hm text1 hp).2,
+    readsFixed_no_assocs u _ rfl⟩
 
 /-- inferring again changes nothing -/
 theorem insert_only_idem (u : UC) (m : MM) (hm : m.Closed u) : (m.inferred u).inferred u = m.inferred u :=
@@ -619,20 +658,19 @@ theorem mPets_unsetSafe : UnsetSafe UC.ascii mPets := by
   simp only [mPets, List.head!, List.zip, List.zipWith, List.mem_singleton] at hkk; subst hkk
   exact ⟨Or.inl (by decide), Or.inl (by decide)⟩
 
-theorem mPets_refsResolve : RefsResolve UC.ascii mPets := by
-  intro a ha sc tc hsc htc s hs hnn
-  obtain ⟨rfl, rfl, rfl⟩ := mPets_assoc_classes ha hsc htc
-  have hs' : s = [some (.str "rex".toList), some (.id 1)] ∨ s = [none, none] := by
-    simpa [mPets] using hs
-  rcases hs' with rfl | rfl
-  · exact ⟨[some (.id 1), some (.str "it's -- \n".toList)], by decide, by decide⟩
-  · exfalso
-    obtain ⟨k, hk, hn⟩ := hnn
-    have : k = "Owner_Id".toList := by
-      have hk' : k ∈ ["Owner_Id".toList] := hk
-      simpa using hk'
-    subst this
-    revert hn; decide
+/-- the canonical form of `mPets` is a fixed point of reading through links: the linked dog reads the id of its owner, the
+    dog without owner reads `None` where the null id 0 is stored -/
+theorem mPets_readsFixed : (mPets.reloaded UC.ascii mPets.assocsByIdKind).ReadsFixed UC.ascii := by
+  unfold MM.ReadsFixed; decide
+
+/-- THE DANGLING CASE IS EXCLUDED BY THE HYPOTHESIS: a dog whose Owner_Id 5 refers to no owner -- `getattr` reads `None`
+    (written 0), the stored cell is 5 -- is no fixed point -/
+example : ¬ (MM.ReadsFixed UC.ascii
+    ⟨[⟨"Owner".toList, [("Id".toList, "UNIQUE_ID".toList)], [], [[some (.id 1)]]⟩,
+      ⟨"Dog".toList, [("Tag".toList, "STRING".toList), ("Owner_Id".toList, "UNIQUE_ID".toList)], [],
+       [[some (.str "rex".toList), some (.id 5)]]⟩],
+     [⟨"R1".toList, ⟨true, true, "Dog".toList, ["Owner_Id".toList], []⟩, ⟨false, true, "Owner".toList, ["Id".toList], []⟩⟩]⟩) := by
+  unfold MM.ReadsFixed; decide
 
 /-- the links its keys denote: the first dog belongs to the first owner -/
 example : linksOf UC.ascii mPets = [(mPets.assocs.head!, [(0, 0)])] := by decide
@@ -646,7 +684,7 @@ example : ∃ text stmts bs, printItems UC.ascii (mPets.serializeDatabase UC.asc
   cases hp : printItems UC.ascii (mPets.serializeDatabase UC.ascii) with
   | none => exact absurd hp (by decide)
   | some text =>
-    obtain ⟨stmts, bs, h1, h2, h3, h4⟩ := reload_same_spec UC.ascii mPets (mPets_wf _) mPets_closed mPets_unsetSafe mPets_refsResolve
+    obtain ⟨stmts, bs, h1, h2, h3, h4⟩ := reload_same_spec UC.ascii mPets (mPets_wf _) mPets_closed mPets_unsetSafe
       (fun a => linksOfAssoc UC.ascii mPets a) (fun _ _ _ => Iff.rfl) text hp
     exact ⟨text, stmts, bs, rfl, h1, h2, h3, h4⟩
 
@@ -672,12 +710,27 @@ example : ∃ text stmts bs, printItems UC.ascii (mPets.serializeDatabase UC.asc
   cases hp : printItems UC.ascii (mPets.serializeDatabase UC.ascii) with
   | none => exact absurd hp (by decide)
   | some text =>
-    obtain ⟨stmts, bs, h1, h2, _, h4⟩ := reload_same UC.ascii mPets (mPets_wf _) mPets_loadDom mPets_unsetSafe mPets_refsResolve
+    obtain ⟨stmts, bs, h1, h2, _, h4⟩ := reload_same UC.ascii mPets (mPets_wf _) mPets_loadDom mPets_unsetSafe
       (fun a => linksOfAssoc UC.ascii mPets a)
       (fun a ha i j => (loaderLinked_iff UC.ascii mPets mPets_loadDom a ha i j).symm) text hp
     refine ⟨text, stmts, bs, rfl, h1, h2, ?_⟩
     intro a ha i j
     rw [← h4 a ha i j]
     exact loaderLinked_iff UC.ascii mPets mPets_loadDom a ha i j
+
+/-- `reload_same_partial` and `text_fixed_point` APPLIED to `mPets`: the text is accepted and builds to the canonical form,
+    whose cells are what `getattr` returns; the second text exists, is accepted, builds to the same metamodel and is
+    written again unchanged -/
+example : ∃ text1 text2, printItems UC.ascii (mPets.serializeDatabase UC.ascii) = some text1 ∧
+    (∃ stmts bs, classify UC.ascii text1 = .accepted stmts ∧ build UC.ascii stmts = .ok bs ∧ (bs.toMM UC.ascii).ReadsFixed UC.ascii) ∧
+    printItems UC.ascii ((mPets.reloaded UC.ascii mPets.assocsByIdKind).serializeDatabase UC.ascii) = some text2 ∧
+    ∃ stmts2 bs2, classify UC.ascii text2 = .accepted stmts2 ∧ build UC.ascii stmts2 = .ok bs2 ∧
+      printItems UC.ascii ((bs2.toMM UC.ascii).serializeDatabase UC.ascii) = some text2 := by
+  cases hp : printItems UC.ascii (mPets.serializeDatabase UC.ascii) with
+  | none => exact absurd hp (by decide)
+  | some text1 =>
+    obtain ⟨stmts, bs, h1, h2, _, h4⟩ := reload_same_partial UC.ascii mPets (mPets_wf _) mPets_closed mPets_readsFixed text1 hp
+    obtain ⟨text2, g1, stmts2, bs2, g2, g3, _, g5, _⟩ := text_fixed_point UC.ascii mPets (mPets_wf _) mPets_closed mPets_readsFixed text1 hp
+    exact ⟨text1, text2, rfl, ⟨stmts, bs, h1, h2, h4⟩, g1, stmts2, bs2, g2, g3, g5⟩
 
 end PyxProps.C01
